@@ -72,3 +72,17 @@ func (s *Service) VerifStartSurvey(peers int) {
 	s.surveyor.VerifSetPeers(peers)
 	s.surveyor.Start()
 }
+
+// VerifRelease is called by the harness after Close on a broker it will not use again: Close leaves the presence
+// queue goroutine, the monitor ticker and the actor loops of the (never started) mesh router running, and through them
+// the whole service stays reachable. A harness that creates thousands of brokers in one process stops the first two
+// and lets the swarm drop what it holds.
+func (s *Service) VerifRelease() {
+	s.presence.Close()
+	if s.monitor != nil {
+		s.monitor.Close()
+	}
+	if s.cluster != nil {
+		s.cluster.VerifRelease()
+	}
+}
